@@ -110,6 +110,22 @@ MUTANTS = [
                  "        e_i[...] = 0\n"
                  "        for k in range(n):"),
                 ("# step_ratio, parity, nterms\nFD_RULES = {}", "# step_ratio, parity, nterms\nFD_RULES = {}\n_SCRATCH = {}")]),
+    # ------------------------------------------------------------------ C09: state outside the library
+    dict(id='c09_warnings_error_filter_leak', prop='C09', file='limits.py', expect='caught',
+         needs='a call whose extrapolated sequence has an all-NaN column leaves an error::RuntimeWarning '
+               'filter in the process-wide warnings.filters; a later call that emits a RuntimeWarning '
+               '(another all-NaN column, an overflow) raises instead of returning '
+               '(re-implementation of a sub-agent change whose files were lost before vetting)',
+         edits=[("        shape = errors.shape\n        try:\n            arg_mins = np.nanargmin(errors, axis=0)\n"
+                 "            min_errors = np.nanmin(errors, axis=0)\n        except ValueError as msg:\n"
+                 "            warnings.warn(str(msg))\n            return np.arange(shape[1])\n",
+                 "        shape = errors.shape\n        filters = warnings.filters[:]\n"
+                 "        warnings.simplefilter('error', RuntimeWarning)\n        try:\n"
+                 "            min_errors = np.nanmin(errors, axis=0)\n"
+                 "            arg_mins = np.zeros(shape[1], dtype=int)\n"
+                 "        except (ValueError, RuntimeWarning):\n"
+                 "            return np.arange(shape[1])\n"
+                 "        warnings.filters[:] = filters\n")]),
     # ------------------------------------------------------------------ locks
     dict(id='c09_correct_lock_around_cache', prop='C09', file=FD, expect='clean',
          needs='nothing: guarding the rule cache with a module-level lock is a correct change; the '
